@@ -33,7 +33,10 @@ class Constraints:
 
     List of the available constraint combinations:
 
-        1 x samp, 1 x ref and 1 x det:  all
+        1 x samp, 1 x ref and 1 x det:  mu
+                                        eta
+                                        chi
+                                        phi
 
         2 x samp and 1 x ref:  chi & phi
                                chi & eta
@@ -42,15 +45,15 @@ class Constraints:
                                mu & phi
                                eta & phi
 
-        2 x samp and 1 x det:  chi & phi
-                               mu & eta
-                               mu & phi
-                               mu & chi
-                               eta & phi
-                               eta & chi
-                               bisect & mu
-                               bisect & eta
-                               bisect & omega
+        2 x samp and 1 x det (delta, nu or qaz):  chi & phi
+                                                  mu & eta
+                                                  mu & phi
+                                                  mu & chi
+                                                  eta & phi
+                                                  eta & chi
+                                                  bisect & mu
+                                                  bisect & eta
+                                                  bisect & omega
 
         3 x samp:              eta, chi & phi
                                mu, chi & phi
